@@ -328,6 +328,16 @@ class History:
         elif act == "Terminal":
             self.streams.append(s.AsAwkwardArray(["c"]))
             self.shadow.append(sh.AsAwkwardArray(["c"]))
+        elif act == "ValueFail":
+            # value() on a stream without a dataset at its root: must be rejected (any exception); the streams are
+            # re-inspected afterwards like after every step
+            try:
+                s.value()
+                raise RuntimeError("value() on a stream without a dataset did not raise")
+            except RuntimeError:
+                raise
+            except Exception:
+                pass
         elif act == "ValueSync":
             # the synchronous wrapper value(): the dataset's executor answers at once
             self.sync_reply = (a["op"], a["v"], a["c"])
